@@ -203,6 +203,60 @@ def create (tab : Table) : Nat → List Node → NodeData → Option NodeData
       create tab f (ts.map Prod.snd ++ rest)
         (ts.foldl (fun nd rt => link nd e rt) { nd with created := nd.created ++ [e] })
 
+/-! ## The relation slots the node constructors read
+
+  Every constructor reads a few attributes of its Fortran object ("slots") and links the new node with
+  the node of every entity it finds there.  Which slots the constructor of which node class reads is
+  also read off the working tree (translate/c13.py runs the real constructors on stubs and writes
+  `C13Gen.ctorLinks`); `Props/C13.lean` proves that the generated table and `slotsOf` agree and that
+  every row stores both directions. -/
+
+inductive Slot | uses | anc | ext | comps | calls | bindings | deps
+deriving DecidableEq, Repr
+
+/-- the codes used in the generated table `C13Gen.ctorLinks` -/
+def Kind.code : Kind → Nat
+  | .mod => 0 | .submod => 1 | .type => 2 | .proc => 3 | .prog => 4 | .file => 5 | .block => 6 | .ext => 7
+
+def Slot.code : Slot → Nat
+  | .uses => 0 | .anc => 1 | .ext => 2 | .comps => 3 | .calls => 4 | .bindings => 5 | .deps => 6
+
+def allKinds : List Kind := [.mod, .submod, .type, .proc, .prog, .file, .block, .ext]
+
+def allSlots : List Slot := [.uses, .anc, .ext, .comps, .calls, .bindings, .deps]
+
+/-- the relation a slot feeds -/
+def Slot.rel : Slot → Rel
+  | .uses => .uses | .anc => .anc | .ext => .ext | .comps => .comp
+  | .calls => .call | .bindings => .call | .deps => .dep
+
+/-- slots that go through `get_call_nodes` before they are linked -/
+def Slot.isCall : Slot → Bool
+  | .calls | .bindings => true
+  | _ => false
+
+/-- the slots the constructor of each node class reads (`ModNode`, `SubmodNode`, `TypeNode`, `ProcNode`,
+    `ProgNode`, `FileNode`, `BlockNode`; an entity known by name only has none) -/
+def slotsOf : Kind → List Slot
+  | .mod => [.uses]
+  | .submod => [.uses, .anc]
+  | .type => [.ext, .comps]
+  | .proc => [.uses, .calls, .bindings]
+  | .prog => [.uses, .calls]
+  | .file => [.deps]
+  | .block => [.uses]
+  | .ext => []
+
+/-- what an entity holds in a slot -/
+def slotVals (e : Ent) : Slot → List Node
+  | .uses => e.uses
+  | .anc => optList e.anc
+  | .ext => optList e.anc
+  | .comps => e.comps
+  | .calls => e.calls
+  | .bindings => e.bindings
+  | .deps => e.deps
+
 def fwdOf (nd : NodeData) (a : Node) (r : Rel) : List Node :=
   (nd.fwd.filter fun l => l.src == a && l.rel == r).map Link.dst
 
@@ -311,6 +365,38 @@ termination_by cfg.maxNesting - nesting
 def runGraph (cfg : Cfg) (roots : List Node) : GState :=
   addNodes cfg roots 1 { added := dedup roots }
 
+/-! ## `FortranGraph.__str__`: whether and how a graph is shown on its page -/
+
+inductive Shown | nothing | table | svg
+deriving DecidableEq, Repr
+
+/-- `__str__`: a graph that shows nothing but one node is left out; so is one whose nodes exceed
+    `max_nodes` (the roots alone are too many) or that lacks a root; a graph whose *first* hop was
+    refused and that has a single root is shown as a table (root, one row per kept edge of that hop);
+    everything else is the SVG picture. -/
+def shownAs (nroots maxNodes : Nat) (g : GState) : Shown :=
+  let asTable := !g.hopNodes.isEmpty && nroots == 1
+  if g.added.length ≤ 1 ∧ asTable = false then .nothing
+  else if g.added.length > maxNodes then .nothing
+  else if g.added.length < nroots then .nothing
+  else if asTable then .table
+  else .svg
+
+/-- the end of an edge that is not the root (the root itself for an edge from the root to itself) -/
+def otherEnd (root : Node) (e : Edge) : Node := if e.tail == root then e.head else e.tail
+
+/-- `_make_graph_as_table`: one row per kept edge, showing one end of the edge beside the root.  Which
+    end is decided **once**: `ft = false`, the code as it is, from the first edge (`hop_edges[0]`): the
+    head of every edge if the root is the tail of the first one, else the tail of every edge;
+    `ft = true`, the code with fixes/C13-table-self-loop.diff, from the first edge that does not lead
+    from the root to itself.  The harness decides at run time which of the two the working tree is. -/
+def tableRows (ft : Bool) (root : Node) (es : List Edge) : List (Node × Style) :=
+  let first := if ft then (es.find? fun e => e.tail != e.head).or es.head? else es.head?
+  match first with
+  | none => []
+  | some e0 =>
+    if e0.tail == root then es.map fun e => (e.head, e.style) else es.map fun e => (e.tail, e.style)
+
 /-! ## `GraphManager` -/
 
 def maxList (d : Nat) (l : List Nat) : Nat := l.foldl max d
@@ -324,6 +410,10 @@ def cfgOf (fx : Bool) (tab : Table) (nd : NodeData) (c : GClass) (roots : List N
 
 def graphOf (fx : Bool) (tab : Table) (nd : NodeData) (c : GClass) (roots : List Node) : GState :=
   runGraph (cfgOf fx tab nd c roots) roots
+
+/-- how the graph of class `c` over `roots` appears on its page -/
+def shownOf (fx : Bool) (tab : Table) (nd : NodeData) (c : GClass) (roots : List Node) : Shown :=
+  shownAs roots.length (cfgOf fx tab nd c roots).maxNodes (graphOf fx tab nd c roots)
 
 /-- `GraphManager.register`: only entities whose metadata say `graph: true` -/
 def registered (tab : Table) (order : List Node) : List Node :=
